@@ -58,6 +58,10 @@ func drawBlockingStack(t *Tape, kinds []string) StackCfg {
 
 func runC10(r *Run) {
 	t := r.T
+	if t.Chance(35, "rich-mode") {
+		runC10Rich(r)
+		return
+	}
 	cfg := c10cfg{}
 	cfg.stack = drawBlockingStack(t, []string{"blocking", "queue", "deadline", "fixedpool", "pool"})
 	cfg.waiters = 1 + t.Intn(3, "waiters")
@@ -163,4 +167,59 @@ func runC10(r *Run) {
 	}
 	s.Run()
 	r.VirtNs = s.Now()
+}
+
+// runC10Rich: the same stable-point oracle over the richer caller scenario shared with C02
+// (staggered arrivals, hold times, cancellations, poll / backlog timeouts and releases on a
+// 1 ms grid): stale subscriptions of callers that gave up, waiters that re-queue, releases that
+// coincide with give-ups. Whenever nothing can run, no caller may be blocked while capacity is free.
+func runC10Rich(r *Run) {
+	sc := drawScen(r, scenOpts{
+		kinds: []string{"blocking", "blocking", "deadline", "queue", "queue", "lifo-ctor", "fifo-ctor", "fixedpool", "pool"}, strategies: []string{"simple", "precise"},
+		maxClients: 5, arrivals: []time.Duration{0, 0, ms, 2 * ms}, holds: []time.Duration{0, ms, 2 * ms},
+		qTimeouts: []time.Duration{3 * ms, time.Second, time.Hour}, bTimeouts: []time.Duration{0, 2 * ms, time.Hour},
+		deadlines: []time.Duration{5 * ms, time.Hour}, cancelPct: 25, cancelTimes: []time.Duration{ms, 2 * ms, 3 * ms},
+		backlogs: []int{4}, limits: []int{1, 2}, relTimes: []time.Duration{0, ms, 2 * ms, 3 * ms},
+		preHeldAll: true,
+	})
+	if sc == nil {
+		return
+	}
+	s := sc.s
+	sc.start()
+	cfg := sc.cfg
+	s.OnQuiescent = func() {
+		if s.cur != nil && s.cur.curOp != nil && s.cur.curOp.Name == "complete" {
+			for _, cl := range sc.clients {
+				if cl.tk.MidOp() && cl.tk.curOp.Name == "acquire" {
+					r.Probe("release_overlapped_waiter_midop")
+					r.Nontrivial = true
+				} else if cl.tk.BlockedInOp("acquire") {
+					r.Probe("release_while_waiter_asleep")
+					r.Nontrivial = true
+				}
+			}
+		}
+	}
+	s.OnStable = func() {
+		if sc.midOp() {
+			return
+		}
+		blocked := sc.blockedClients()
+		if blocked == 0 {
+			return
+		}
+		free := int64(cfg.Limit) - sc.st.Out.Load()
+		if busy, ok := sc.st.Busy(); ok && int64(cfg.Limit-busy) < free {
+			free = int64(cfg.Limit - busy)
+		}
+		if free > 0 {
+			r.Probe("stable_with_blocked_waiter_and_free_capacity")
+			s.Fail("lost-wakeup", cfg.Key(), "stable point at t=%s: %d caller(s) blocked in Acquire while %d unit(s) of capacity are free (limit %d) and nothing else can run; no further release, timeout or cancellation should be needed [%s]", fmtDur(s.Now()), blocked, free, cfg.Limit, cfg)
+		}
+	}
+	s.OnDrain = sc.drainHeld
+	s.Run()
+	r.VirtNs = s.Now()
+	sc.commonProbes()
 }
